@@ -303,6 +303,9 @@ func asn1OctetString(ext *pkix.Extension, field string, size int) ([]byte, error
 
 func extractTcbExtension(tcbExtension []asn1.RawValue, tcb *PckCertTCB) error {
 	tcbComponents := make([]byte, tcbComponentSize)
+	// Every TCB element must be present: a missing one must not silently read as zero.
+	var seenComponents [tcbComponentSize]bool
+	var seenPceSvn, seenCPUSvn bool
 	for _, ext := range tcbExtension {
 		var tcbValue pkix.AttributeTypeAndValue
 		rest, err := asn1.Unmarshal(ext.FullBytes, &tcbValue)
@@ -321,6 +324,7 @@ func extractTcbExtension(tcbExtension []asn1.RawValue, tcb *PckCertTCB) error {
 					return err
 				}
 				tcbComponents[i] = val
+				seenComponents[i] = true
 				break
 			}
 		}
@@ -329,6 +333,7 @@ func extractTcbExtension(tcbExtension []asn1.RawValue, tcb *PckCertTCB) error {
 			if err := asn1U16(&tcbValue, "PCESvn", &tcb.PCESvn); err != nil {
 				return err
 			}
+			seenPceSvn = true
 		}
 
 		if tcbValue.Type.Equal(OidCPUSvn) {
@@ -340,7 +345,19 @@ func extractTcbExtension(tcbExtension []asn1.RawValue, tcb *PckCertTCB) error {
 				return fmt.Errorf("CPUSVN component in TCB extension is of size %d, expected %d", len(tcbValue.Value.([]byte)), cpuSvnSize)
 			}
 			tcb.CPUSvn = val
+			seenCPUSvn = true
 		}
+	}
+	for i, seen := range seenComponents {
+		if !seen {
+			return fmt.Errorf("TCB extension does not contain sgxTcbComponent%d", i+1)
+		}
+	}
+	if !seenPceSvn {
+		return errors.New("TCB extension does not contain PCESvn")
+	}
+	if !seenCPUSvn {
+		return errors.New("TCB extension does not contain CPUSVN")
 	}
 	tcb.CPUSvnComponents = tcbComponents
 	return nil
@@ -400,6 +417,7 @@ func extractSgxExtensions(extensions []asn1.RawValue) (*PckExtensions, error) {
 		return nil, fmt.Errorf("SGX Extension has length %d. It should have a minimum length of %d", len(extensions), sgxExtensionMinSize)
 	}
 
+	var seenPPID, seenTCB, seenPCEID, seenFMSPC bool
 	for i, ext := range extensions {
 		var sExtension pkix.AttributeTypeAndValue
 		rest, err := asn1.Unmarshal(ext.FullBytes, &sExtension)
@@ -414,6 +432,7 @@ func extractSgxExtensions(extensions []asn1.RawValue) (*PckExtensions, error) {
 			if err != nil {
 				return nil, err
 			}
+			seenPPID = true
 		}
 		if sExtension.Type.Equal(OidTCB) {
 			tcb, err := extractAsn1SequenceTcbExtension(extensions[i])
@@ -421,19 +440,25 @@ func extractSgxExtensions(extensions []asn1.RawValue) (*PckExtensions, error) {
 				return nil, err
 			}
 			pckExtension.TCB = *tcb
+			seenTCB = true
 		}
 		if sExtension.Type.Equal(OidPCEID) {
 			pckExtension.PCEID, err = extractAsn1OctetStringExtension("PCEID", extensions[i], pceIDSize)
 			if err != nil {
 				return nil, err
 			}
+			seenPCEID = true
 		}
 		if sExtension.Type.Equal(OidFMSPC) {
 			pckExtension.FMSPC, err = extractAsn1OctetStringExtension("FMSPC", extensions[i], fmspcSize)
 			if err != nil {
 				return nil, err
 			}
+			seenFMSPC = true
 		}
+	}
+	if !seenPPID || !seenTCB || !seenPCEID || !seenFMSPC {
+		return nil, errors.New("SGX extension does not contain all of PPID, TCB, PCEID and FMSPC")
 	}
 	return pckExtension, nil
 }
